@@ -52,6 +52,9 @@ def main():
         if rc:
             out["demo_clean_log"] = log[-1500:]
         rc, log = sh(["git", "-C", wt, "apply", os.path.join(seed, "patch.diff")])
+        if rc:   # /repo has moved on (fix: commits): fall back to a 3-way merge of the hunk
+            rc, log = sh(["git", "-C", wt, "apply", "--3way", os.path.join(seed, "patch.diff")])
+            out["applied_3way"] = rc == 0
         out["patch_applies"] = rc == 0
         if rc:
             out["apply_log"] = log[-1500:]
